@@ -59,6 +59,14 @@ def gen_cases(rng, tier: str) -> list[dict]:
             pts = common.points_for(rng, e, 2)
             cases.append({"origin": "focus:" + origin, "e": wire.expr(e2),
                           "points": [wire.point({k: float(v) for k, v in p.items()} if floaty else p) for p in pts]})
+    if focus:
+        for root, mentioned, ints in instrument.unknown_reducer_hints():
+            if root in gen.ALL:
+                for origin, e in gen.directed_shapes(rng, root, mentioned, ints, 3000):
+                    e2, _ = gen.safe_numbers(e, {})
+                    floaty = e2 is not e
+                    cases.append({"origin": "focus:" + origin, "e": wire.expr(e2),
+                                  "points": [wire.point({k: float(v) for k, v in p.items()} if floaty else p) for p in common.points_for(rng, e, 2)]})
     if tier == "thorough" or True:
         for e in big_inputs(rng)[: (1 if tier == "quick" else 3)]:
             cases.append({"origin": "budget", "e": wire.expr(e), "points": [wire.point({"x": 2, "y": 3}), wire.point({"x": -1.5, "y": 0.5})]})
